@@ -15,6 +15,7 @@ import os, sys, gc, json, time, signal, select, sqlite3, traceback, threading, e
 CHILD_TIMEOUT = 30.0     # watchdog inside C / G (seconds; generous: the machine may be heavily loaded)
 PARENT_TIMEOUT = 150.0   # watchdog inside P
 CASE_TIMEOUT = 180.0     # H waits this long for P
+THREAD_STATES = ('thread_open_write', 'threads_queued_write')
 THREAD_STATE_CHILD_TIMEOUT = 5.0   # 'thread_open_write' histories: a deadlock is proven by the stack, not by the time
 
 
@@ -452,12 +453,22 @@ def get_world(workdir):
     return w
 
 
+MEMORY_DBS = {'memory': ':memory:', 'sharedmemory': ':sharedmemory:'}
+
+
 def sqlite_history(case, world):
     """Runs in P.  Returns the observation dict."""
     del EVENTS[:]
     CONNECT_FAULT['armed'] = CONNECT_FAULT['fired'] = 0
-    with world.orm.db_session:
-        world.db.execute('delete from e')
+    kind = case.get('db', 'file')
+    if kind in MEMORY_DBS:
+        # an in-memory database lives in its (never closed) connection: P itself has to open it, a world inherited from
+        # H would already be a fork history
+        world = SqliteWorld(MEMORY_DBS[kind])
+        world.filename = None
+    else:
+        with world.orm.db_session:
+            world.db.execute('delete from e')
     return _sqlite_history(case, world)
 
 
@@ -466,7 +477,7 @@ _child_timeout = [CHILD_TIMEOUT]
 
 def _sqlite_history(case, world):
     fn = world.filename
-    _child_timeout[0] = THREAD_STATE_CHILD_TIMEOUT if case['parent_state'] == 'thread_open_write' else CHILD_TIMEOUT
+    _child_timeout[0] = THREAD_STATE_CHILD_TIMEOUT if case['parent_state'] in THREAD_STATES else CHILD_TIMEOUT
     labels = _Labels()
     obs = {'pids': {'P': os.getpid()}, 'setup': [], 'child': None, 'parent_after': [], 'final': None}
     setup = obs['setup']
@@ -492,7 +503,7 @@ def _sqlite_history(case, world):
         setup.append(world.op('P', 'commit'))
     elif state == 'gen_suspended':
         setup.append(world.op('P', 'gen_start'))
-    elif state == 'thread_open_write':
+    elif state in THREAD_STATES:
         # ANOTHER thread of the parent holds an open write transaction (and pony's SQLite transaction lock) at the fork
         ready, done = threading.Event(), threading.Event()
         thread_rec = {'who': 'PT', 'op': 'thread_write', 'label': 'tu', 'ok': None}
@@ -516,6 +527,33 @@ def _sqlite_history(case, world):
         ready.wait(PARENT_TIMEOUT)
         if thread_rec['ok'] is False:
             return dict(obs, harness_error='setup thread failed: %r' % (thread_rec,))
+        thread_b = None
+        if state == 'threads_queued_write':
+            # ... and a SECOND thread is queued behind it: it starts a write session and waits inside pony for the first
+            thread_b_rec = {'who': 'PB', 'op': 'thread_write', 'label': 'tb', 'ok': None}
+
+            def thread_b_body():
+                try:
+                    with world.orm.db_session:
+                        world.E(name='tb')
+                        world.orm.flush()
+                    thread_b_rec['ok'] = True
+                except Exception as e:
+                    thread_b_rec['ok'] = False
+                    thread_b_rec['exc'] = _exc_info(e)
+            thread_b = threading.Thread(target=thread_b_body)
+            thread_b.daemon = True
+            thread_b.start()
+            # scheduling aid only (never part of the judgement): wait until the second thread is really queued
+            t_end = time.time() + 3.0
+            while time.time() < t_end and thread_b_rec['ok'] is None:
+                lock = getattr(world.db.provider, 'pre_transaction_lock', None)
+                if lock is not None and lock.locked():
+                    break
+                time.sleep(0.01)
+            time.sleep(0.05)
+            if thread_b_rec['ok'] is not None:
+                return dict(obs, harness_error='second thread did not queue: %r' % (thread_b_rec,))
     else:
         raise ValueError(state)
     for rec in setup:
@@ -572,10 +610,13 @@ def _sqlite_history(case, world):
             world.gen.close()
         except Exception:
             pass
-    if state == 'thread_open_write':
+    if state in THREAD_STATES:
         done.set()
         thread.join(PARENT_TIMEOUT)
         obs['thread'] = thread_rec
+        if thread_b is not None:
+            thread_b.join(PARENT_TIMEOUT)
+            obs['thread_b'] = thread_b_rec
     if world.session is not None:
         fin.append(world.op('P', 'end_session'))
         if not fin[-1]['ok']:
@@ -585,10 +626,14 @@ def _sqlite_history(case, world):
     obs['events'] = list(EVENTS)
     # independent look at the file (plain sqlite3, new connection)
     try:
+        if fn is None:
+            raise LookupError('in-memory database')
         c = sqlite3.connect(fn, timeout=1.0)
         obs['file_names'] = sorted(r[0] for r in c.execute('select name from e'))
         obs['integrity'] = c.execute('pragma integrity_check').fetchall()[0][0]
         c.close()
+    except LookupError:
+        obs['no_file'] = True
     except Exception as e:
         obs['file_error'] = repr(e)
     try:
